@@ -95,8 +95,19 @@ def run(ctx):
     ok1, rej1 = ctx.validate_traces(tr1, "TraceHistory", cfg)
     report(ctx, rej1, "walker")
     tr2 = os.path.join(ctx.work, "hist-random.ndjson")
-    i2 = ctx.run_vh(["hist-random", "-out", tr2, "-traces", 300 if q else 3000, "-len", 60 if q else 120])
-    ok2, rej2 = ctx.validate_traces(tr2, "TraceHistory", cfg)
+    i2 = ctx.run_vh(["hist-random", "-out", tr2, "-traces", 300 if q else 3000, "-len", 60 if q else 120], check=False)
+    if i2["_rc"] != 0:
+        err = i2["_stderr"]
+        k = err.find("fatal error")
+        frames = [l.strip() for l in err.splitlines() if "internal/history" in l][:4]
+        if k >= 0 and frames:    # the runtime aborted inside the history package (cannot be recovered from): an observation
+            ctx.violation("C16|fatal|%s" % ("load" if any(".Load" in f for f in frames) else "other"),
+                          "the Go runtime aborted the process inside the history package: %s; frames: %s" % (err[k:k + 120].splitlines()[0], frames),
+                          err[k:k + 3000], name="fatal")
+            open(tr2, "a").close()
+        else:
+            raise Infra("harness hist-random failed (exit %d):\n%s" % (i2["_rc"], err[-3000:]))
+    ok2, rej2 = ctx.validate_traces(tr2, "TraceHistory", cfg) if os.path.getsize(tr2) > 0 else (0, [])
     report(ctx, rej2, "random")
     samples = [{"init": tours[i][0], "tour": tours[i][1]} for i in range(0, len(tours), max(1, len(tours) // 3))][:3]
     cov = {"states": r["distinct"], "transitions": r["generated"], "traces_validated_against_impl": ok1 + ok2,
